@@ -786,37 +786,116 @@ def f6(prog):
 
 
 def i1b(prog):
-    """the parent DIE built by fetch_parent_die takes context and import chain from the cursor that climbed the chain"""
+    """fetch_parent_die interpreted from source on abstract DIE forests with partial units imported at top level, nested, and below an
+    ordinary DIE: the parent of a cooked DIE is the DIE that contains it once imports are inlined, and it carries the import chain of
+    the point where the climb stopped (not the child's chain); a raw DIE's parent is the stored parent without any chain; a root has none."""
+    from cxxobj import CxxEvaluator, Obj, Struct, Sym, OutOfBounds
+    from absint import Thrown
     inst, findings = [], []
     f = prog.func_opt("(anonymous namespace)::fetch_parent_die")
     if f is None:
         raise Broken("anchor fetch_parent_die vanished")
-    cursors = set()
-    for x in walk(f["body"]):
-        tgt = rhs = None
-        if x.get("k") == "asg":
-            tgt, rhs = x["lhs"], x["rhs"]
-        if tgt is not None and any(c.get("fn") == "get_import" for c in calls(rhs)):
-            u = unwrap(tgt)
-            if isinstance(u, dict) and u.get("k") == "ref":
-                cursors.add(u["id"])
-    mk = [c for c in calls(f["body"]) if c.get("f", "").startswith("std::make_unique<value_die")]
-    if len(mk) != 1 or not cursors:
-        raise Broken("fetch_parent_die has an unmodelled shape (no climbing cursor or no single construction)")
+    ctor = [c for c in prog.funcs.values() if c["q"] == "value_die::value_die" and len(c["params"]) == 5 and c.get("inits")]
+    if len(ctor) != 1:
+        raise Broken("anchor value_die constructor (5 arguments) vanished")
+    dn = {c["n"]: ("enum", c["n"], c["v"]) for e in prog.enums.values() if e["q"] == "doneness" for c in e["consts"]}
+    tags = {c["n"]: c["v"] for e in prog.enums.values() if e["file"] == "/usr/include/dwarf.h" for c in e["consts"]
+            if c["n"] in ("DW_TAG_partial_unit", "DW_TAG_compile_unit", "DW_TAG_imported_unit", "DW_TAG_structure_type", "DW_TAG_variable")}
+    if set(dn) < {"raw", "cooked"} or len(tags) != 5:
+        raise Broken("enum doneness / DW_TAG constants vanished")
+
+    class N:
+        def __init__(self, name, tag, off, parent):
+            self.name, self.tag, self.off, self.parent = name, tags[tag], off, parent
+            self.addr = 0x4000 + off
+
+        def __repr__(self):
+            return self.name
+    #  CU R { imp1 -> P1 ; S0 { v0 } }   P1 { X { Z } ; imp2 -> P2 ; S { imp3 -> P3 } }   P2 { Y }   P3 { W }
+    R = N("R", "DW_TAG_compile_unit", 0x0b, None)
+    imp1 = N("imp1", "DW_TAG_imported_unit", 0x10, R)
+    S0 = N("S0", "DW_TAG_structure_type", 0x20, R)
+    v0 = N("v0", "DW_TAG_variable", 0x24, S0)
+    P1 = N("P1", "DW_TAG_partial_unit", 0x100, None)
+    X = N("X", "DW_TAG_structure_type", 0x110, P1)
+    Z = N("Z", "DW_TAG_variable", 0x114, X)
+    imp2 = N("imp2", "DW_TAG_imported_unit", 0x120, P1)
+    S = N("S", "DW_TAG_structure_type", 0x130, P1)
+    imp3 = N("imp3", "DW_TAG_imported_unit", 0x134, S)
+    P2 = N("P2", "DW_TAG_partial_unit", 0x200, None)
+    Y = N("Y", "DW_TAG_variable", 0x210, P2)
+    P3 = N("P3", "DW_TAG_partial_unit", 0x300, None)
+    W = N("W", "DW_TAG_variable", 0x310, P3)
+    nodes = {n.off: n for n in (R, imp1, S0, v0, P1, X, Z, imp2, S, imp3, P2, Y, P3, W)}
+    NO_OFF = (1 << 64) - 1
+
+    def die_of(n):
+        d = Struct("Dwarf_Die", {})
+        d.cu, d.node = Sym.of("cu"), n
+        return d
+
+    def fill(dst, n):
+        dst.cu, dst.node = Sym.of("cu"), n
+    hooks = {
+        "dwfl_context::find_parent": lambda ev, o, a: (a[0].node.parent.off if a[0].node.parent is not None else NO_OFF),
+        "dwarf_cu_getdwarf": lambda ev, o, a: Sym.of("dwarf"),
+        "dwarf_offdie": lambda ev, o, a: (fill(a[2], nodes[int(a[1])]) or a[2]) if int(a[1]) in nodes else None,
+        "dwarf_tag": lambda ev, o, a: a[0].node.tag,
+        "throw_libdw": lambda ev, o, a: (_ for _ in ()).throw(Thrown("libdw error")),
+    }
+    ev = CxxEvaluator(hooks, {}, prog=prog)
+    DWCTX = Sym.of("dwctx")
+
+    def val(n, imp, d="cooked"):
+        return ev.construct(ctor[0], Obj("value_die"), [DWCTX, imp, die_of(n), 0, dn[d]])
+
+    def chain(v):
+        out = []
+        while v is not None:
+            out.append(v.m_die.node.name)
+            v = v.m_import
+        return out
+    I1 = val(imp1, None)
+    I2 = val(imp2, I1)
+    I3 = val(imp3, I1)
+    # (value, expected parent node, expected import chain of the parent)
+    cases = [
+        ("a DIE of the unit itself", val(v0, None), S0, []),
+        ("the unit DIE", val(R, None), None, None),
+        ("a child of a partial unit imported at top level", val(X, I1), R, []),
+        ("a grandchild inside an imported partial unit", val(Z, I1), X, ["imp1"]),
+        ("a child of a partial unit imported from an imported partial unit", val(Y, I2), R, []),
+        ("a child of a partial unit imported below a structure of an imported partial unit", val(W, I3), S, ["imp1"]),
+        ("a structure of an imported partial unit", val(S, I1), R, []),
+        ("a raw child of a partial unit", val(X, None, "raw"), P1, []),
+        ("a raw DIE", val(Z, None, "raw"), X, []),
+        ("a cooked child of a partial unit with unknown import history", val(X, None), P1, []),
+    ]
     key = "I1b:fetch_parent_die"
-    roots = {}
-    for a in mk[0]["a"]:
-        for c in calls(a):
-            if c.get("fn") in ("get_import", "get_dwctx") and c.get("obj") is not None:
-                o = unwrap(c["obj"])
-                if isinstance(o, dict) and o.get("k") == "ref":
-                    roots[c["fn"]] = (o["id"], o["n"])
-    inst.append((key, {"cursor_vars": len(cursors), "result_takes": {k: v[1] for k, v in roots.items()}}))
-    for fn, (vid, name) in roots.items():
-        if vid not in cursors:
-            findings.append({"key": key, "where": mk[0]["l"],
-                             "msg": "the parent value takes %s() from `%s`, not from the cursor that climbed the import chain: after crossing an imported_unit boundary the parent carries the child's full import chain (child parent != the DIE, parent* never reaches root)" % (fn, name),
-                             "detail": None})
+    bad = None
+    for what, v, want, wchain in cases:
+        try:
+            r = ev.call(f, None, [v])
+        except OutOfBounds as x:
+            raise Broken("fetch_parent_die cannot be evaluated: %s" % x)
+        except Thrown as x:
+            bad = bad or "the parent of %s raises an error (%s)" % (what, x)
+            continue
+        if want is None:
+            if r is not None and bad is None:
+                bad = "%s has the parent %s" % (what, r.m_die.node)
+            continue
+        if r is None:
+            bad = bad or "%s has no parent; expected %s" % (what, want)
+            continue
+        got, gchain = r.m_die.node, chain(r.m_import)
+        if (got is not want or gchain != wchain or r.m_dwctx is not DWCTX) and bad is None:
+            bad = "the parent of %s (import chain %s) is %s with import chain %s; expected %s with import chain %s" % (
+                what, chain(v.m_import), got, gchain, want, wchain)
+    inst.append((key, {"cases": len(cases)}))
+    if bad:
+        findings.append({"key": key, "where": "libzwerg/" + f["l"],
+                         "msg": bad + ": after crossing an imported_unit boundary the parent must carry the chain of the importing DIE (else child parent != the DIE, parent* never reaches root)", "detail": None})
     return inst, findings
 
 
